@@ -93,7 +93,7 @@ func c16Types(n int) []string {
 					if strings.Contains(t, "): ") || strings.HasSuffix(t, ")") && strings.Contains(t, "fun(") && strings.Contains(t, ":") {
 						pt = "(" + t + ")" // a fun type with a return list swallows a following ", T"
 					}
-					out = append(out, t+" | "+u, "table<"+pt+", "+u+">", "fun(p: "+pt+", q?: "+u+")", "fun(p?: "+pt+", q: "+u+")", "fun(p: "+t+"): "+u, "("+t+" | "+u+")[]")
+					out = append(out, t+" | "+u, "table<"+pt+", "+u+">", "fun(p: "+pt+", q?: "+u+")", "fun(p?: "+pt+", q: "+u+")", "table<"+pt+" | "+pt+", "+u+">", "fun(p: "+t+"): "+u, "("+t+" | "+u+")[]")
 					if n-1-a == 1 && a == 1 {
 						out = append(out, "fun(): "+t+", "+u)
 					}
@@ -170,7 +170,7 @@ func c16Lines(maxNodes int) []c16Line {
 			}
 		}
 	}
-	for _, l := range []string{"---@class C", "---@class C @comment", "---@class C : P", "---@class C : P, Q", "---@class C : P, Q @comment",
+	for _, l := range []string{"---@class C", "---@class C @comment", "---@class C : P", "---@class C : P, Q", "---@class C : P, Q @comment", "---@class C : C, P", "---@class C : P, C @comment",
 		"---@generic T", "---@generic T : P", "---@generic T : P, K", "---@generic T, K : Q", "---@generic K, T : Q @comment", "---@generic K : P, T : Q", "---@generic A, B, C : P",
 		"---@overload fun(p: string): People", "---@overload fun()",
 		"---@enum start", "---@enum end", "---@enum start @comment"} {
@@ -453,7 +453,8 @@ func c16NamesAndParents(line string) (string, bool) {
 		}
 		var ps []string
 		for _, p := range strings.Split(parents, ",") {
-			if p = strings.TrimSpace(p); p != "" {
+			// a class naming itself as a parent: that parent is ignored, the others count
+			if p = strings.TrimSpace(p); p != "" && p != strings.TrimSpace(name) {
 				ps = append(ps, p)
 			}
 		}
